@@ -635,8 +635,7 @@ def judge_programs(chk, progs):
                 rows_p, prob = rows_of_text(lang, rp['ok'])
                 rows_t, prob_t = rows_of_text(lang, rt['ok'])
                 if prob or prob_t:
-                    chk.violation(f'extract-{n}-{lang}', dict(payload, lang=lang, problems=(prob + prob_t)[:5], text=rp['ok'][:3000]),
-                                  'the generated text does not fit the language template (extractor reports unparsed lines)')
+                    chk.unreadable(lang, dict(payload, entry=entry, text=rp['ok'][:3000]), prob + prob_t)
                     continue
                 equal = m[0] == 'ok' and m[1] == rows_p
                 if not equal:
